@@ -684,6 +684,55 @@ func plaintext(r *hx.Rand, g *hx.Gen) []byte {
 	return sb.Bytes()
 }
 
+// long runs: trailing blanks (SP/TAB/CR mixes) at line end, mid-line and at the end of the text, very long
+// lines, long runs of '-' at line start, long CR runs before LF — with Write boundaries placed at every
+// offset near the start and the end of the run
+func longRun(r *hx.Rand, g *hx.Gen) ([]byte, []int) {
+	n := r.PickInt(255, 256, 257, 254, 258, 511, 512, 513, 1000, 300)
+	if r.Chance(1, 12) {
+		n = 5000
+	}
+	var run []byte
+	kind := r.Intn(7)
+	g.Stat(fmt.Sprintf("pt.longrun.kind=%d", kind))
+	switch kind {
+	case 0, 1, 2: // blanks
+		alpha := r.PickStr(" ", "\t", "\r", " \t", " \r", " \t\r", "\t\r")
+		for i := 0; i < n; i++ {
+			run = append(run, alpha[r.Intn(len(alpha))])
+		}
+	case 3:
+		run = bytes.Repeat([]byte("a"), n)
+	case 4:
+		run = bytes.Repeat([]byte("-"), n)
+	case 5:
+		run = bytes.Repeat([]byte("\r"), n)
+	default:
+		run = bytes.Repeat([]byte("- "), n/2)
+	}
+	pre := r.PickStr("", "x", "line\n", "- d\nword ", "\n", "-", " ")
+	post := r.PickStr("\n", "\n", "", "x\n", "x", "\nnext\n", "\r\n", " \n", "-\n")
+	pt := []byte(pre + string(run) + post)
+	// one to three Write boundaries near the run's start / end
+	start, end := len(pre), len(pre)+len(run)
+	marks := map[int]bool{}
+	for i, k := 0, r.Range(1, 3); i < k; i++ {
+		b := r.PickInt(start, end, start+255, start+256, start+257) + r.Range(-2, 2)
+		if b > 0 && b < len(pt) {
+			marks[b] = true
+		}
+	}
+	var ch []int
+	last := 0
+	for i := 1; i < len(pt); i++ {
+		if marks[i] {
+			ch = append(ch, i-last)
+			last = i
+		}
+	}
+	return pt, ch
+}
+
 // a text with the same or a nearly-same canonical form
 func variant(r *hx.Rand, g *hx.Gen, pt []byte) []byte {
 	s := string(pt)
@@ -784,6 +833,12 @@ func gen(g *hx.Gen) {
 			genDec(g)
 		case k < 15:
 			pt := plaintext(r, g)
+			if r.Chance(1, 5) {
+				lp, ch := longRun(r, g)
+				g.Stat("clr")
+				g.Emit("clr hash=%s ch=%s pt=%s", hx.Hex([]byte(r.PickStr("SHA256", "SHA1", "SHA512"))), hx.JoinInts(ch), hx.Hex(lp))
+				continue
+			}
 			g.Stat("clr")
 			g.Emit("clr hash=%s ch=%s pt=%s", hx.Hex([]byte(r.PickStr("SHA256", "SHA256", "SHA1", "SHA512", "SHA384", "SHA224"))), hx.JoinInts(chunking(r, len(pt))), hx.Hex(pt))
 		case k < 17:
